@@ -158,8 +158,37 @@ pub fn place(v: &[Pt2], deg: f64, scale: f64, t: Pt2, clockwise: bool, shift: us
     o
 }
 
+/// axis-aligned outlines with subdivided edges (straight-angle vertices on every edge, in particular
+/// on the left-most vertical one): rectangle, L and staircase; counter-clockwise, integer coordinates
+pub fn subdivided(kind: u64, sub: usize) -> Vec<Pt2> {
+    let corners: Vec<(f64, f64)> = match kind % 3 {
+        0 => vec![(0.0, 0.0), (4.0, 0.0), (4.0, 3.0), (0.0, 3.0)],
+        1 => vec![(0.0, 0.0), (3.0, 0.0), (3.0, 1.0), (1.0, 1.0), (1.0, 3.0), (0.0, 3.0)],
+        _ => vec![(0.0, 0.0), (3.0, 0.0), (3.0, 1.0), (2.0, 1.0), (2.0, 2.0), (1.0, 2.0), (1.0, 3.0), (0.0, 3.0)],
+    };
+    let n = corners.len();
+    let mut v = Vec::new();
+    for i in 0..n {
+        let (a, b) = (corners[i], corners[(i + 1) % n]);
+        for k in 0..=sub {
+            if k <= sub {
+                let t = k as f64 / (sub + 1) as f64;
+                // dyadic subdivision keeps the points exactly on the edge
+                v.push(Pt2::new(a.0 + (b.0 - a.0) * t, a.1 + (b.1 - a.1) * t));
+            }
+        }
+    }
+    v
+}
+
 /// a random clockwise profile for the mesh builders (moderate size, unit scale)
 pub fn profile_cw(rng: &mut Rng, max_n: usize) -> Vec<Pt2> {
+    if rng.chance(0.12) {
+        // subdivided axis-aligned outline, any rotation of the vertex list
+        let v = subdivided(rng.below(3), [1usize, 3][rng.below(2) as usize]);
+        let shift = rng.below(v.len() as u64) as usize;
+        return place_exact(&v, rng.below(4), 0, Pt2::new(0.0, 0.0), true, shift);
+    }
     let kind = rng.below(N_FAMILIES);
     let n = 4 + rng.below((max_n - 3) as u64) as usize;
     let v = family(rng, kind, n);
